@@ -287,7 +287,11 @@ def jobs(tier, seed):
     for c in (["name"], ["name", "..", "name"], ["."]):
         out.append({"harness": "add_path", "params": {"kinds": c, "absolute": True}})
     for ci, c in enumerate(combos):
-        if c[-1] == "name" and (big or len(c) <= 3 or (ci + seed) % 3 == 0):
+        depth, below = 0, True
+        for kind in c:
+            depth += 1 if kind == "name" else (-1 if kind == ".." else 0)
+            below = below and depth >= 0
+        if c[-1] == "name" and below and (big or len(c) <= 3 or (ci + seed) % 3 == 0):          # a file below the root (a path that leaves the root has no file to hash)
             out.append({"harness": "add_computed", "params": {"kinds": list(c), "alg": ["sha256", "md5", "sha1"][ci % 3]}})
     for n in (1, 2, 3):
         for c in itertools.product(["typed", "bare"], repeat=n):
